@@ -228,7 +228,25 @@ def escapes_execute(case, stats):
     stats.note(case, any(p[0].startswith("\\") for p in case["parts"]), classes=["parts%d" % len(case["parts"])])
 
 
+def long_enumerate(tier, shard, nshards):
+    return shard_iter(({"size": n, "kind": k} for n in (4096, 65535, 65536, 70001) for k in ("random", "syntax")), shard, nshards)
+
+
+def long_execute(case, stats):
+    """Very long literals (up to 70 000 bytes): direct round trip, lexer, parser."""
+    import random as _r
+
+    rnd = _r.Random(case["size"])
+    b = rnd.randbytes(case["size"]) if case["kind"] == "random" else bytes(rnd.choice(SYNTAX) for _ in range(case["size"]))
+    lit = literal_of(b)
+    check_direct(b, lit)
+    check_lexer(b, lit)
+    check_batch([(b, lit)])
+    stats.note(case, True, classes=["long_literal"])
+
+
 SUBS = [
+    Sub("long_literals", long_execute, enumerate=long_enumerate, exhaustive=True),
     Sub("exhaustive", enum_execute, enumerate=enum_cases, exhaustive=True),
     Sub("random", random_execute, strategy=random_strategy, examples={"quick": 320, "thorough": 8000}),
     Sub("escapes", escapes_execute, strategy=escapes_strategy, examples={"quick": 640, "thorough": 16000}),
